@@ -33,6 +33,10 @@ pub mod c15;
 pub mod c17;
 #[cfg(all(kani, feature = "c18"))]
 pub mod c18;
+#[cfg(all(kani, feature = "c19"))]
+pub mod c19;
+#[cfg(all(kani, feature = "c20"))]
+pub mod c20;
 #[cfg(all(kani, feature = "c12"))]
 pub mod c12;
 #[cfg(all(kani, feature = "c13"))]
